@@ -11,6 +11,13 @@ def run():
     chk.add_model("RwMutexImpl/variant check_once (must violate)", r, note="violated: %s" % r["violated"])
     r2 = vlib.model_check("RwMutexImpl", "RwMutexImpl_dev2.cfg", expect_ok=False, timeout=600)
     chk.add_model("RwMutexImpl/variant done_load_store (must violate)", r2, note="violated: %s" % r2["violated"])
+    # request bookkeeping (prev_access / state, which group a request joins) incl. move assignment of the mutex
+    chk.add_model("RwRequestImpl (all request / move-assign sequences over 2 objects, 6 requests)",
+                  vlib.model_check("RwRequestImpl", "RwRequestImpl.cfg", timeout=600))
+    for cfg in ("RwRequestImpl_dev.cfg", "RwRequestImpl_dev_kind.cfg"):
+        r3 = vlib.model_check("RwRequestImpl", cfg, expect_ok=False, timeout=600)
+        chk.add_model("RwRequestImpl/variant move_keeps_prev_access, %s (must violate)" % cfg[:-4], r3,
+                      note="violated: %s" % r3["violated"])
     (binary,) = vlib.build_harness(["rw_harness"])
     nruns = 64 if chk.thorough() else 16
     nhist = 1500 if chk.thorough() else 500
